@@ -139,7 +139,7 @@ pub const SVERIF_TEXT: &str = include_str!("../schemas/sverif.graphql");
 // Curated datasets for S-verif
 
 fn item(ds: &mut Dataset, ty: &str, id: i64, n: FV, s: FV) -> usize {
-    ds.add(ty, vec![("id", values::i(id)), ("n", n), ("s", s), ("l", FV::Null), ("f", FV::Null), ("b", FV::Null)])
+    ds.add(ty, vec![("id", values::i(id)), ("n", n), ("s", s), ("l", FV::Null), ("ls", FV::Null), ("f", FV::Null), ("b", FV::Null)])
 }
 
 fn set(ds: &mut Dataset, v: usize, k: &str, x: FV) {
@@ -194,6 +194,9 @@ pub fn curated() -> Vec<Dataset> {
     set(&mut d, v0, "l", list(vec![i(1), i(2)]));
     set(&mut d, v1, "l", list(vec![]));
     set(&mut d, v2, "l", list(vec![FV::Null, u(1)]));
+    set(&mut d, v0, "ls", list(vec![s("a"), s("b")]));
+    set(&mut d, v1, "ls", list(vec![]));
+    set(&mut d, v3, "ls", list(vec![FV::Null, s("")]));
     set(&mut d, v0, "f", FV::Float64(1.5));
     set(&mut d, v1, "f", FV::Float64(-0.0));
     set(&mut d, v0, "b", FV::Boolean(true));
@@ -229,6 +232,8 @@ pub fn curated() -> Vec<Dataset> {
     d.edge(x, "next", z);
     d.edge(x, "next", h);
     set(&mut d, h, "l", list(vec![i(2), i(3)]));
+    set(&mut d, h, "ls", list(vec![s("a")]));
+    set(&mut d, z, "ls", list(vec![s("ab"), s("(")]));
     set(&mut d, x, "l", list(vec![i(2)]));
     out.push(d);
 
